@@ -94,6 +94,15 @@ class SimStream(io.StringIO):
                 raise SimStreamFault(excname)
         return super().write(msg)
 
+    def flush(self):
+        # the terminal may also fail when it is flushed (a broken pipe shows up there)
+        if self.armed and S_in_part() and self.fail_plan.get('flush'):
+            excname = self.fail_plan.pop('flush')
+            self.fired.append(('flush', excname))
+            LOG.add('fault', 'stream', 'flush', excname)
+            raise OSError(32, 'sim: broken pipe on flush')
+        return super().flush()
+
     # a terminal-like object
     def isatty(self):
         return False
